@@ -9,9 +9,11 @@ Inductive case :=
 (* history with readiness / server changes: initial servers, ops, observed results
    (-1 error, -2 nothing to observe, else endpoint) *)
 | CHist (srv : eplist) (ops : list cop) (obs : list Z)
-(* concurrent pickers on an explicit subset of k ready endpoints (numbered 0..k-1 = positions):
-   picks per goroutine, schedule; observed trace of goroutine ids and per-goroutine results *)
-| CConc (k : Z) (picks : list nat) (sched : list nat) (tr : list Z) (res : list (list Z)).
+(* concurrent pickers on an explicit subset, in phases: before each phase the readiness of the subset's
+   endpoints is set (a new ready list = a new, not yet existing counter); per phase: ready endpoints, picks
+   per goroutine, schedule; observed: trace (goroutine, pick completed?) and per-goroutine results *)
+| CConc (subset : eplist)
+        (phases : list (eplist * list nat * list nat * list (Z * Z) * list (list Z))).
 
 Definition pres_code (p : pres) : Z := match p with PErr => -1 | POk e => e end.
 
@@ -25,7 +27,28 @@ Definition agree_hist srv ops obs : bool :=
          (combine ops (crun {| servers := srv; readyset := []; curs := [] |} ops)))
     obs.
 
-Definition seq0 (k : Z) : list Z := map Z.of_nat (seq 0 (Z.to_nat k)).
+Definition ze_eqb (a b : Z * Z) : bool := (fst a =? fst b) && (snd a =? snd b).
+
+(* observed global order of picks of a phase: the steps that completed a pick, in trace order *)
+Definition obs_global (tr : list (Z * Z)) (res : list (list Z)) : list Z :=
+  global_seq (map fst (filter (fun e => snd e =? 1) tr)) res.
+
+Fixpoint conc_walk (subset : eplist) (cur : cursors)
+         (ps : list (eplist * list nat * list nat * list (Z * Z) * list (list Z))) : bool * bool * bool :=
+  match ps with
+  | [] => (true, true, true)
+  | (ready, picks, sched, tr, res) :: r =>
+      let rd := filter (fun e => zin e ready) subset in
+      let k := Z.of_nat (List.length rd) in
+      let c0 := get cur rd in
+      let '(mtr, mres, mglob, c1) := model_conc k c0 picks sched in
+      let ep (z : Z) := nth (Z.to_nat z) rd (-1) in
+      let glob := obs_global tr res in
+      let agree := list_eqb ze_eqb mtr tr && list_eqb (list_eqb Z.eqb) (map (map ep) mres) res &&
+                   list_eqb Z.eqb (map ep mglob) glob in
+      let '(a2, o2, s2) := conc_walk subset (set cur rd c1) r in
+      (agree && a2, only_ready_ok rd glob && o2, strict_ok rd glob && s2)
+  end.
 
 (* clause layout: agree, only_ready, strict, unordered, wrap, conc_strict *)
 Definition eval (c : case) : list bool :=
@@ -39,9 +62,6 @@ Definition eval (c : case) : list bool :=
         (if explicit then wrap_ok eps obs else true);
         true ]
   | CHist srv ops obs => [ agree_hist srv ops obs; true; true; true; true; true ]
-  | CConc k picks sched tr res =>
-      let '(mtr, mres, mglob) := model_conc k 0 picks sched in
-      [ list_eqb Z.eqb mtr tr && list_eqb (list_eqb Z.eqb) mres res && list_eqb Z.eqb mglob (global_seq tr res);
-        only_ready_ok (seq0 k) (global_seq tr res); true; true; true;
-        strict_ok (seq0 k) (global_seq tr res) ]
+  | CConc subset phases =>
+      let '(a, o, s) := conc_walk subset [] phases in [ a; o; true; true; true; s ]
   end.
